@@ -609,3 +609,18 @@ Lemma ex_commit_value :
     (build_commitment CT_Anchors false true 1000000 600000000 ex_htlcs 2500 354)
   = Some (394999, 594962, [1; 3], [2; 4], 3670).
 Proof. vm_compute. reflexivity. Qed.
+
+(** The partition holds for every successful run of the builder, whatever the inputs. *)
+Lemma build_commitment_partition ct local funder v s htlcs fr dust ca :
+  build_commitment ct local funder v s htlcs fr dust = Some ca ->
+  ca_nondust ca = filter (fun h => negb (h_is_dust ct fr dust h)) htlcs /\
+  ca_dust ca = filter (h_is_dust ct fr dust) htlcs /\
+  Permutation (ca_nondust ca ++ ca_dust ca) htlcs.
+Proof.
+  unfold build_commitment.
+  destruct (chk_sub s _); [|discriminate]. destruct (chk_sub (v * 1000) s); [|discriminate].
+  destruct (chk_sub _ _); [|discriminate].
+  destruct (saturating_sub_from_funder funder _ _ (sat_mul 64 (total_anchors_sat ct) 1000)) as [lb rb].
+  destruct (saturating_sub_from_funder funder (lb / 1000) (rb / 1000) _) as [vs vr].
+  intros [= <-]. cbn [ca_nondust ca_dust]. split; [reflexivity|]. split; [reflexivity|]. apply filter_perm.
+Qed.
